@@ -85,6 +85,8 @@ pub fn complement_256(elem: &BigInt, field: &BigInt) -> BigInt {
     for bit in &mut bit_repr {
         *bit = u8::from(*bit == 0);
     }
+    // The bit representation of zero has no sign, which would make the result zero.
+    let sign = if sign == Sign::NoSign { Sign::Plus } else { sign };
     let cp = BigInt::from_radix_le(sign, &bit_repr, 2).unwrap();
     modulus(&cp, field)
 }
